@@ -1009,10 +1009,16 @@ std::string EvaluateCommandWithRspfile(const Edge* edge,
     return command;
 
   size_t index = command.find(rspfile);
-  if (index == 0 || index == string::npos ||
-      (command[index - 1] != '@' &&
-       command.find("--option-file=") != index - 14 &&
-       command.find("-f ") != index - 3))
+  if (index == 0 || index == string::npos)
+    return command;
+  // Does the option that names the response file directly precede it?  (An
+  // option that does not occur at all must not count as found when the file
+  // name happens to start exactly as many bytes into the command as the option
+  // is long: |index - length| would wrap around to npos.)
+  const bool after_option_file =
+      index >= 14 && command.find("--option-file=") == index - 14;
+  const bool after_f = index >= 3 && command.find("-f ") == index - 3;
+  if (command[index - 1] != '@' && !after_option_file && !after_f)
     return command;
 
   string rspfile_content = edge->GetBinding("rspfile_content");
@@ -1024,7 +1030,7 @@ std::string EvaluateCommandWithRspfile(const Edge* edge,
   }
   if (command[index - 1] == '@') {
     command.replace(index - 1, rspfile.length() + 1, rspfile_content);
-  } else if (command.find("-f ") == index - 3) {
+  } else if (after_f) {
     command.replace(index - 3, rspfile.length() + 3, rspfile_content);
   } else {  // --option-file syntax
     command.replace(index - 14, rspfile.length() + 14, rspfile_content);
